@@ -1,12 +1,14 @@
 pub mod hist;
 pub mod desc;
 pub mod vec;
+pub mod reg;
 use crate::Area;
 pub fn lookup(name: &str) -> Option<Box<dyn Area>> {
     match name {
         "hist" => Some(Box::new(hist::HistArea)),
         "desc" => Some(Box::new(desc::DescArea)),
         "vec" => Some(Box::new(vec::VecArea)),
+        "reg" => Some(Box::new(reg::RegArea)),
         _ => None,
     }
 }
